@@ -338,6 +338,18 @@ impl Prog {
     pub fn render(&self) -> String {
         format!("{}{}echo \"{}:$?\"\n", PROLOGUE, self.render_body(), SENTINEL)
     }
+
+    /// only the function definitions
+    pub fn render_funcs(&self) -> String {
+        let r = Renderer::new(self.newlines);
+        let mut out = String::new();
+        for (i, f) in self.funcs.iter().enumerate() {
+            out.push_str(&format!("f{i}() {{ "));
+            r.list_t(f, &mut out);
+            out.push_str("}\n");
+        }
+        out
+    }
 }
 
 // ---------------------------------------------------------------------------------------------
